@@ -496,6 +496,20 @@ def execute(plan):
         a1 = np.asarray(getattr(sib, w))
         if a1.shape != a0.shape or not np.array_equal(a1, a0):
             viol("instance-isolated", -1, "sibling", bits_s, what=w)
+    # ... and the sibling must still work like a fresh object: calibration steps regenerate its
+    # grids, which must come out right whatever the other instance did to shared state
+    try:
+        ms = _Model()
+        ms.shape, ms.valid, ms.scale = tuple(sib.data.shape), ~np.isnan(sib.data), mdl.scale
+        sib.strip_latcal()
+        ms.dx = 1.0
+        _invariants(np, sib, ms, -1, "sibling-strip_latcal", _cache_bits(sib), viol)
+        sib.latcal(2.5)
+        ms.dx = 2.5
+        _invariants(np, sib, ms, -1, "sibling-latcal", _cache_bits(sib), viol)
+        bump(probes, "sibling_probed")
+    except Exception as e:
+        viol("instance-isolated", -1, "sibling", _cache_bits(sib), exc=type(e).__name__)
     # originals left behind by copy(): untouched by anything done to the copy since
     for (ci, orig, m0, data0, snap) in shadows:
         bits0 = _cache_bits(orig)
